@@ -62,6 +62,10 @@ def _worker(args):
         return ("ok", ctx.col.to_dict())
     except BaseException:
         return ("error", "shard %r: %s" % (spec, traceback.format_exc()))
+    finally:
+        import faulthandler
+
+        faulthandler.cancel_dump_traceback_later()  # the pool re-uses this process for other shards
 
 
 def write_replay(pid, failure):
